@@ -269,7 +269,8 @@ Print Assumptions C03_refs_follow_closed.
 (* PROGRESS THROUGH THE WHOLE TRANSFORMER.  Full statement (DESIGN §5 C03_refs_follow) is build-level and
    refuted below; this is its proved part at the level of nameReferenceTransformer.Transform with the
    generated table, all rows, all referrers.  A scalar field of referrer r (not under a key "namespace",
-   not the roleRef/name field) that a row of the referent's kind reaches and that holds a text [old] such
+   a roleRef/name field only when nothing was ever called like the binding's roleRef apiGroup / kind)
+   that a row of the referent's kind reaches and that holds a text [old] such
    that, among the resources r may refer to (SubsetThatCouldBeReferencedByResource), exactly one candidate b
    ever had that name with the row's kind, b passing the namespace sieve, and such that in the WHOLE map
    everything ever called [old] is called like b now and so is everything ever called like b now (no
@@ -284,7 +285,9 @@ Theorem C03_refs_follow_transform_partial :
     forall i r r' org row fs flags cands b a t s old,
       nth_error m i = Some r -> nth_error m' i = Some r' -> org_id cs r = Ok org ->
       In row rules -> In fs (nb_referrers row) -> gvk_is_selected (id_gvk org) (fs_gvk fs) = true ->
-      has_suffix "roleRef/name" (fs_path fs) = false ->
+      roleref_sieve (make_ctx cs r (fs_path fs) (nb_gvk row)) b = true ->
+      (has_suffix "roleRef/name" (fs_path fs) = false \/
+       exists g, roleref_gvk (r_node r) = Some g /\ external C (g_group g) /\ external C (g_kind g)) ->
       referencable cs m r = Ok flags -> mapM (view cs) (select_by flags m) = Ok cands ->
       no_ns_key a -> reaches (path_splitter (fs_path fs)) a (r_node r) = true ->
       get_addr a (r_node r) = Some (Scalar t s old) -> is_null (Scalar t s old) = false ->
@@ -346,7 +349,9 @@ Theorem C03_refs_follow_build_partial :
     forall i r r' org row fs flags cands j pb b a t s,
       nth_error m i = Some r -> nth_error out i = Some r' -> org_id cs r = Ok org ->
       In row rules -> In fs (nb_referrers row) -> gvk_is_selected (id_gvk org) (fs_gvk fs) = true ->
-      has_suffix "roleRef/name" (fs_path fs) = false ->
+      roleref_sieve (make_ctx cs r (fs_path fs) (nb_gvk row)) b = true ->
+      (has_suffix "roleRef/name" (fs_path fs) = false \/
+       exists g, roleref_gvk (r_node r) = Some g /\ external C (g_group g) /\ external C (g_kind g)) ->
       referencable cs m r = Ok flags -> mapM (view cs) (select_by flags m) = Ok cands ->
       no_ns_key a -> reaches (path_splitter (fs_path fs)) a (r_node r) = true ->
       get_addr a (r_node r) = Some (Scalar t s (get_name (r_node (fst pb)))) ->
@@ -388,7 +393,9 @@ Theorem C03_refs_follow_pipeline_partial :
     forall i r r' org row fs flags cands j b b2 a t0 s old,
       nth_error m1 i = Some r -> nth_error m2 i = Some r' -> org_id pipe_cs r = Ok org ->
       In row rules -> In fs (nb_referrers row) -> gvk_is_selected (id_gvk org) (fs_gvk fs) = true ->
-      has_suffix "roleRef/name" (fs_path fs) = false ->
+      roleref_sieve (make_ctx pipe_cs r (fs_path fs) (nb_gvk row)) b = true ->
+      (has_suffix "roleRef/name" (fs_path fs) = false \/
+       exists g, roleref_gvk (r_node r) = Some g /\ external C (g_group g) /\ external C (g_kind g)) ->
       referencable pipe_cs m1 r = Ok flags -> mapM (view pipe_cs) (select_by flags m1) = Ok cands ->
       no_ns_key a -> match a with AKey k :: _ => k <> "metadata" | _ => False end ->
       reaches (path_splitter (fs_path fs)) a (r_node r) = true ->
